@@ -304,3 +304,56 @@ func engNote(o *Out, s *engSession) {
 	}
 	o.Count(fmt.Sprintf("travellers_%s", bucket(len(s.trav))))
 }
+
+
+// genC01Full: a traveller whose history holds 100 flights makes a through check-in whose later flight is older
+// than all of them: the first flight is taken (and debited), the second refused as too old - the submission as a
+// whole must fail and leave the stored record as it was.
+func genC01Full(rng *Rng, workdir string) *engSession {
+	s := newEngSession(workdir, "C01")
+	p := pickEngParams(rng, engCfg{promises: 0})
+	s.setParams(p)
+	used := map[string]bool{}
+	s.addTraveller(passportWithPrefix(rng, -1, used))
+	day := uint64(rng.Range(17500, 19500))
+	mk := func(st uint64, a, b int) flap.VerifFlight {
+		return flap.VerifFlight{Start: flap.EpochTime(st), End: flap.EpochTime(st + 1800), From: icaoOf(a), To: icaoOf(b), Distance: flap.Kilometres(5 + 300*rng.F01())}
+	}
+	s.update(day * 86400)
+	n := 0
+	for n < 100+rng.Intn(4) {
+		k := rng.Range(1, 3)
+		var fs []flap.VerifFlight
+		for j := 0; j < k; j++ {
+			fs = append(fs, mk(day*86400+uint64(n)*2000+100, n%5, (n+1)%5))
+			n++
+		}
+		s.submit(0, fs, uint64(fs[0].Start), rng.Chance(1, 3))
+		if rng.Chance(1, 12) {
+			day++
+			s.update(day * 86400)
+		}
+	}
+	t, ok := s.get(0)
+	if !ok {
+		return s
+	}
+	es := t.VerifTripHistory().VerifEntries()
+	oldest := uint64(es[len(es)-1].Start)
+	if oldest < 3*86400 {
+		return s
+	}
+	for k := 0; k < 3; k++ {
+		cur := mk(day*86400+uint64(n)*2000+100, 1, 2)
+		n++
+		anc := mk(oldest-uint64(rng.Range(1, 86400)), 2, 3)
+		s.submit(0, []flap.VerifFlight{cur, anc}, uint64(cur.Start), true)
+		s.stat["submissions_with_a_later_flight_too_old_for_a_full_history"]++
+		s.submit(0, []flap.VerifFlight{mk(day*86400+uint64(n)*2000+100, 2, 4)}, day*86400+uint64(n)*2000+100, true)
+		n++
+	}
+	day++
+	s.update(day * 86400)
+	s.checkTrav(0)
+	return s
+}
